@@ -35,6 +35,8 @@ enum Flavour {
     Fm,
     GenericFm,
     WrapI8,
+    /// `X<T: HasA>` whose fields have the projection type `T::A` (T := Fm, A = Fm)
+    AssocFm,
 }
 
 #[derive(Clone, Debug)]
@@ -48,6 +50,9 @@ struct Case {
     raw: bool,
     /// the trait sits in a SECOND stacked `#[derive_ex(..)]` list
     stacked: bool,
+    /// 0 plain; 1 the definition comes out of a `macro_rules!` macro, the field type being passed in as an `ident`
+    /// fragment; 2 declared where-clause `where Option<Self>: Keep` (Keep is implemented for Option<X> only)
+    extra: usize,
 }
 
 fn gen(ch: &mut Ch, thorough: bool) -> Option<Case> {
@@ -64,10 +69,17 @@ fn gen(ch: &mut Ch, thorough: bool) -> Option<Case> {
     let op = *ch.of(&ops);
     let bodies: Vec<VShape> = if thorough { vshape_menu(4) } else { vec![VShape { kind: SKind::Unit, n: 0 }, VShape { kind: SKind::Tuple, n: 1 }, VShape { kind: SKind::Tuple, n: 2 }, VShape { kind: SKind::Named, n: 2 }, VShape { kind: SKind::Named, n: 3 }, VShape { kind: SKind::Tuple, n: 0 }] };
     let body = ch.of(&bodies).clone();
-    let flavour = *ch.of(&[Flavour::Fm, Flavour::GenericFm, Flavour::WrapI8]);
+    let flavour = *ch.of(&[Flavour::Fm, Flavour::GenericFm, Flavour::WrapI8, Flavour::AssocFm]);
     let entry = *ch.of(&Entry::BOTH);
     let raw = ch.flag();
     let stacked = ch.flag();
+    let extra = ch.pick(3);
+    if extra != 0 && (raw || stacked || flavour != Flavour::Fm || body.n == 0 || entry == Entry::Derive && !thorough) {
+        return None;
+    }
+    if !thorough && extra != 0 && !(body.n == 2) {
+        return None;
+    }
     if raw && !(body.kind == SKind::Named && body.n == 2 && flavour == Flavour::Fm && entry == Entry::Attr && !stacked) {
         return None;
     }
@@ -86,13 +98,13 @@ fn gen(ch: &mut Ch, thorough: bool) -> Option<Case> {
             return None;
         }
     }
-    if !thorough && flavour == Flavour::GenericFm && !(body.n == 2) {
+    if !thorough && matches!(flavour, Flavour::GenericFm | Flavour::AssocFm) && !(body.n == 2) {
         return None;
     }
     if !thorough && entry == Entry::Derive && !(body.n == 2 && body.kind == SKind::Named && flavour == Flavour::Fm) {
         return None;
     }
-    Some(Case { vector: ch.vector(), op, body, flavour, entry, raw, stacked })
+    Some(Case { vector: ch.vector(), op, body, flavour, entry, raw, stacked, extra })
 }
 
 /// wrapping i8 reference semantics
@@ -137,21 +149,36 @@ fn build_inner(c: &Case, tier: &str) -> XCase {
         Flavour::Fm => "Fm",
         Flavour::GenericFm => "T",
         Flavour::WrapI8 => "::core::num::Wrapping<i8>",
+        Flavour::AssocFm => "T::A",
     };
     let ty = |_: usize, _: usize| fty.to_string();
     let noattrs = |_: usize, _: usize| Vec::new();
-    let item = sh.item(if c.flavour == Flavour::GenericFm { "<T>" } else { "" }, &ty, &noattrs);
+    let mut item = sh.item(match c.flavour { Flavour::GenericFm => "<T>", Flavour::AssocFm => "<T: HasA>", _ => "" }, &ty, &noattrs);
+    if c.extra == 2 {
+        item.where_ = "where Option<Self>: Keep".into();
+    }
     let tr = c.op.trait_name();
     let lists = if c.stacked { format!("#[derive_ex(Clone)]\n#[derive_ex({tr})]") } else { format!("#[derive_ex({tr})]") };
     let head = match c.entry {
         Entry::Attr => lists,
         Entry::Derive => format!("#[derive(Ex)]\n{lists}"),
     };
-    let selfty = if c.flavour == Flavour::GenericFm { "X<Fm>" } else { "X" };
+    let selfty = if matches!(c.flavour, Flavour::GenericFm | Flavour::AssocFm) { "X<Fm>" } else { "X" };
     let is_int = c.flavour == Flavour::WrapI8;
     let mut s = String::new();
     s.push_str("use derive_ex::{derive_ex, Ex};\nuse dxrt::{Fm, take_log, take_log_str};\n");
-    s.push_str(&format!("{head}\n{}\ntype S = {selfty};\n", item.print()));
+    if c.flavour == Flavour::AssocFm {
+        s.push_str("pub trait HasA { type A; }\nimpl HasA for Fm { type A = Fm; }\n");
+    }
+    if c.extra == 2 {
+        s.push_str("pub trait Keep {}\nimpl Keep for Option<X> {}\n");
+    }
+    if c.extra == 1 {
+        // the field type reaches the definition as an `ident` fragment of the macro call
+        s.push_str(&format!("macro_rules! mk_item {{ ($t:ident) => {{ {head}\n{} }} }}\nmk_item!(Fm);\ntype S = {selfty};\n", item.print().replace("Fm", "$t")));
+    } else {
+        s.push_str(&format!("{head}\n{}\ntype S = {selfty};\n", item.print()));
+    }
     // mk(k): operand value k
     s.push_str("fn mk(k: usize) -> S {\n    match k {\n");
     for k in 0..3 {
@@ -235,8 +262,9 @@ fn build_inner(c: &Case, tier: &str) -> XCase {
     atoms.insert(format!("body={}", sh.describe()));
     atoms.insert(format!("raw={}", c.raw));
     atoms.insert(format!("stacked={}", c.stacked));
+    atoms.insert(format!("extra={}", ["none", "macro_rules-generated", "where-nested-Self"][c.extra]));
     XCase {
-        text: format!("{} {}{} {}", c.entry.name(), if c.stacked { "stacked " } else { "" }, tr, item.print()),
+        text: format!("{} {}{}{} {}", c.entry.name(), if c.stacked { "stacked " } else { "" }, ["", "macro_rules-generated ", ""][c.extra], tr, item.print()),
         code: s,
         expected: exp,
         atoms,
@@ -251,7 +279,7 @@ fn build_inner(c: &Case, tier: &str) -> XCase {
 
 pub fn run(ctx: &Ctx, rep: &mut Report) {
     let thorough = ctx.tier.is_thorough();
-    rep.rule = "terminal state = (one of the 22 operator traits, struct body shape, field flavour in {Fm free monoid, generic T := Fm, Wrapping<i8>}, entry point); inner enumeration = all 9 ordered operand pairs of a 3-value domain x every owned/reference form of the trait; distinct by program text; non-trivial = at least one field".into();
+    rep.rule = "terminal state = (one of the 22 operator traits, struct body shape, field flavour in {Fm free monoid, generic T := Fm, Wrapping<i8>, projection type T::A of X<T: HasA>}, plain / generated by a macro_rules! macro with the field type as an ident fragment / declared where-clause with a nested `Self`, raw names, stacked lists, entry point); inner enumeration = all 9 ordered operand pairs of a 3-value domain x every owned/reference form of the trait; distinct by program text; non-trivial = at least one field".into();
     rep.assumptions = vec!["reference: field i of the result is op(lhs_i, rhs_i) with the left operand on the left; every reference form equals the owned form; borrowed operands unchanged; Fm logs exactly one call per field with the expected (lhs_is_ref, rhs_is_ref)".into()];
     let mut cases = Vec::new();
     if let Some(p) = &ctx.replay {
